@@ -31,6 +31,7 @@ type vlFS struct {
 	xfs.FS
 	seed int64
 	n    *atomic.Int64
+	gc   *atomic.Int64 // number of *_gc files opened (= files a GC pass decided to compact)
 }
 
 func (f vlFS) nap(max int) {
@@ -44,6 +45,7 @@ func (f vlFS) nap(max int) {
 
 func (f vlFS) Open(name string, flag int) (xfs.File, error) {
 	if len(name) > 3 && name[len(name)-3:] == "_gc" {
+		f.gc.Add(1)
 		f.nap(400)
 	}
 	return f.FS.Open(name, flag)
@@ -59,7 +61,7 @@ func (f vlFS) Sub(name string) (xfs.FS, error) {
 	if err != nil {
 		return nil, err
 	}
-	return vlFS{FS: sub, seed: f.seed, n: f.n}, nil
+	return vlFS{FS: sub, seed: f.seed, n: f.n, gc: f.gc}, nil
 }
 
 type vlEvent struct {
@@ -74,6 +76,7 @@ type vlEvent struct {
 	A     int                       `json:"a"`
 	B     int                       `json:"b"`
 	Res   string                    `json:"res,omitempty"`
+	Shr   bool                      `json:"shrunk,omitempty"` // gc ret: the pass made a data file smaller
 	Cm    map[string]map[string]int `json:"cm,omitempty"`
 	seq   int64
 }
@@ -201,11 +204,11 @@ func vlRun(seed int64, round int, hang *atomic.Bool) (evs []vlEvent, fatal strin
 	case 0:
 		c.FileCap = 0 // no rollover
 	case 1:
-		// the four old samples fill the first file of the 8-byte channels exactly, so the
+		// the eight old samples fill the first file of the 8-byte channels exactly, so the
 		// concurrent sessions write to new files and GC may compact the old one meanwhile
-		c.FileCap = 32
+		c.FileCap = 64
 	}
-	r := &vlRound{c: c, fs: vlFS{FS: xfs.NewMem(), seed: seed*131 + int64(round), n: &atomic.Int64{}}, written: map[string]map[int]int{"I": {}, "D": {}, "V": {}}}
+	r := &vlRound{c: c, fs: vlFS{FS: xfs.NewMem(), seed: seed*131 + int64(round), n: &atomic.Int64{}, gc: &atomic.Int64{}}, written: map[string]map[int]int{"I": {}, "D": {}, "V": {}}}
 	db, err := Open(context.Background(), "", r.opts()...)
 	if err != nil {
 		return nil, "open: " + err.Error()
@@ -258,8 +261,8 @@ func vlRun(seed int64, round int, hang *atomic.Bool) (evs []vlEvent, fatal strin
 		r.log(vlEvent{Ev: "ret", P: p, Res: vsErrClass(err)})
 		return ""
 	}
-	// phase A (sequential): old data at abstract times 0,2,4,6
-	if msg := session("w", 0, [][]int{{0, 2}, {4, 6}}, rnd.Intn(2) == 0); msg != "" {
+	// phase A (sequential): old data at abstract times 0,2,...,14
+	if msg := session("w", 0, [][]int{{0, 2, 4}, {6, 8}, {10, 12, 14}}, rnd.Intn(2) == 0); msg != "" {
 		return nil, msg
 	}
 	// phase B (concurrent)
@@ -271,12 +274,12 @@ func vlRun(seed int64, round int, hang *atomic.Bool) (evs []vlEvent, fatal strin
 		defer wg.Done()
 		<-start
 		a1, a2 := rnd.Intn(2) == 0, rnd.Intn(2) == 0
-		_ = session("w", 8, [][]int{{8}, {10, 12}}, a1)
-		_ = session("w", 14, [][]int{{14, 16}, {18}}, a2)
+		_ = session("w", 16, [][]int{{16}, {18, 20}}, a1)
+		_ = session("w", 22, [][]int{{22, 24}, {26}}, a2)
 	}()
 	// deletes: every range holds at least one sample that is still present on every named
 	// channel, so that no outcome depends on how the code trims sample-free domain pieces
-	nDel := 2 + rnd.Intn(2)
+	nDel := 3 + rnd.Intn(3)
 	var dels []vlEvent
 	sets := [][]string{{"D"}, {"V"}, {"D", "V"}}
 	if rnd.Intn(2) == 0 {
@@ -284,11 +287,11 @@ func vlRun(seed int64, round int, hang *atomic.Bool) (evs []vlEvent, fatal strin
 	}
 	left := map[string]map[int]bool{}
 	for _, ch := range all {
-		left[ch] = map[int]bool{0: true, 2: true, 4: true, 6: true}
+		left[ch] = map[int]bool{0: true, 2: true, 4: true, 6: true, 8: true, 10: true, 12: true, 14: true}
 	}
 	for tries := 0; len(dels) < nDel && tries < 50; tries++ {
-		a := rnd.Intn(7)
-		b := a + 1 + rnd.Intn(7-a)
+		a := rnd.Intn(15)
+		b := a + 1 + rnd.Intn(min(5, 15-a))
 		cs := sets[rnd.Intn(len(sets))]
 		okAll := true
 		for _, ch := range cs {
@@ -313,7 +316,7 @@ func vlRun(seed int64, round int, hang *atomic.Bool) (evs []vlEvent, fatal strin
 		dels = append(dels, vlEvent{Chans: cs, A: a, B: b})
 	}
 	wg.Add(1)
-	go func() { // deleter: ranges inside the old region only (b <= 7 < every new session start)
+	go func() { // deleter: ranges inside the old region only (b <= 15 < every new session start)
 		defer wg.Done()
 		<-start
 		for _, d := range dels {
@@ -347,8 +350,9 @@ func vlRun(seed int64, round int, hang *atomic.Bool) (evs []vlEvent, fatal strin
 			default:
 			}
 			r.log(vlEvent{Ev: "call", P: "g", Op: "gc"})
+			g0 := r.fs.(vlFS).gc.Load()
 			err := db.garbageCollect(ctx, 4)
-			r.log(vlEvent{Ev: "ret", P: "g", Res: vsErrClass(err)})
+			r.log(vlEvent{Ev: "ret", P: "g", Res: vsErrClass(err), Shr: r.fs.(vlFS).gc.Load() > g0})
 			time.Sleep(50 * time.Microsecond)
 		}
 	}()
